@@ -99,6 +99,25 @@ pub fn bases() -> Vec<Base> {
             text: Some("stack push=1,2 | stack pop=1,2"),
         },
         /* 14 */ Base::Elem { name: "noop", args: "", invertible: true },
+        // single-step bodies carrying a directional modifier: the same step whether written bare,
+        // with the sugar (which makes the body a pipeline) or around another macro
+        /* 15 */ Base::Macro { name: "m:skipf", body: vec![s(0, InvForm::None, OmitForm::OmitFwd)], text: None },
+        /* 16 */ Base::Macro { name: "m:skipi", body: vec![s(1, InvForm::Suffix, OmitForm::OmitInv)], text: None },
+        /* 17 */ Base::Macro { name: "m:ltone", body: vec![s(0, InvForm::None, OmitForm::Lt)], text: None },
+        /* 18 */ Base::Macro { name: "m:wskip", body: vec![s(7, InvForm::None, OmitForm::OmitInv)], text: None },
+        // pipeline bodies with a one-way step: not invertible, unless that step is left out inverse
+        /* 19 */
+        Base::Macro {
+            name: "m:owpipe",
+            body: vec![s(0, InvForm::None, OmitForm::None), s(5, InvForm::None, OmitForm::None)],
+            text: None,
+        },
+        /* 20 */
+        Base::Macro {
+            name: "m:owomit",
+            body: vec![s(0, InvForm::None, OmitForm::None), s(5, InvForm::None, OmitForm::OmitInv)],
+            text: None,
+        },
     ]
 }
 
@@ -197,18 +216,22 @@ impl Reference {
     }
 
     /// Is the program instantiable according to the documented rules?
-    /// (inv on a non-invertible elementary operator, or on a macro that is one, is an error)
+    /// (inv on a one-way operator - elementary, macro or pipeline - is an error. A pipeline is
+    /// one-way when one of the steps it executes in the inverse direction is)
     fn step_invertible(&self, bases: &[Base], st: &Step) -> bool {
         match &bases[st.base] {
             Base::Elem { invertible, .. } => *invertible,
             Base::Macro { body, .. } => {
-                if body.len() == 1 {
-                    self.step_invertible(bases, &body[0])
+                if is_pipeline_body(body) {
+                    self.prog_invertible(bases, body)
                 } else {
-                    true
+                    self.step_invertible(bases, &body[0])
                 }
             }
         }
+    }
+    pub fn prog_invertible(&self, bases: &[Base], prog: &[Step]) -> bool {
+        prog.iter().all(|st| st.omit_inv() || self.step_invertible(bases, st))
     }
     pub fn instantiable(&self, bases: &[Base], prog: &[Step]) -> bool {
         prog.iter().all(|st| {
@@ -230,22 +253,15 @@ impl Reference {
                 let h = self.elems[st.base].unwrap();
                 self.ctx.apply(h, if d { Fwd } else { Inv }, data).unwrap()
             }
-            Base::Macro { body, .. } => {
-                if body.len() == 1 {
-                    // a macro that is a single operator: that operator, its own modifiers included
-                    let inner = &body[0];
-                    // omit_* on a stand-alone operator has no meaning outside a pipeline
-                    let mut s2 = inner.clone();
-                    s2.omit = OmitForm::None;
-                    self.exec_step(bases, &s2, d, data)
-                } else {
-                    self.exec_prog(bases, body, d, data)
-                }
-            }
+            // a macro is its body, the directional modifiers of a single-step body included
+            Base::Macro { body, .. } => self.exec_prog(bases, body, d, data),
         }
     }
 
     pub fn exec_prog(&self, bases: &[Base], prog: &[Step], fwd: bool, data: &mut Vec<Coor4D>) -> usize {
+        if !fwd && !self.prog_invertible(bases, prog) {
+            return 0; // unsupported inverse of a one-way pipeline: zero, data untouched
+        }
         let mut n = usize::MAX;
         let order: Vec<&Step> = if fwd { prog.iter().collect() } else { prog.iter().rev().collect() };
         for st in order {
@@ -259,6 +275,11 @@ impl Reference {
         }
         n
     }
+}
+
+/// A body is a pipeline when it has several steps, or when its only step is introduced by < or >
+pub fn is_pipeline_body(body: &[Step]) -> bool {
+    body.len() > 1 || matches!(body[0].omit, OmitForm::Lt | OmitForm::Gt)
 }
 
 pub const PROBE: [C4; 3] = [
@@ -282,7 +303,15 @@ pub fn new_ctx(bases: &[Base]) -> Minimal {
 
 /// Compare the real pipeline against the reference interpreter. Err((clause, detail))
 pub fn check_program(bases: &[Base], reference: &Reference, prog: &[Step]) -> Result<u64, (String, Value)> {
-    let text = render(bases, prog);
+    check_text(bases, reference, prog, render(bases, prog))
+}
+
+/// A single step given as the whole definition, without any pipeline syntax around it
+pub fn check_bare(bases: &[Base], reference: &Reference, st: &Step) -> Result<u64, (String, Value)> {
+    check_text(bases, reference, std::slice::from_ref(st), render_step(bases, st).1)
+}
+
+fn check_text(bases: &[Base], reference: &Reference, prog: &[Step], text: String) -> Result<u64, (String, Value)> {
     let mut ctx = new_ctx(bases);
     let expected_ok = reference.instantiable(bases, prog);
     let op = match catch(|| ctx.op(&text)) {
@@ -437,6 +466,36 @@ fn enumerate(rep: &Report, bases: &[Base], steps: &[Step], len: usize, label: &s
     rep.add_to("program_spaces", json!({"label": label, "step_variants": a, "length": len, "programs": total}));
 }
 
+/// Every step variant as a definition of its own (no pipeline syntax, hence no sugar)
+fn enumerate_bare(rep: &Report, bases: &[Base], steps: &[Step]) {
+    let reference = Reference::new(bases);
+    let mut outcomes = HashSet::new();
+    let mut n = 0;
+    for st in steps.iter().filter(|st| !matches!(st.omit, OmitForm::Lt | OmitForm::Gt)) {
+        n += 1;
+        rep.eval(1);
+        rep.state(1);
+        rep.transition(1);
+        rep.trace(1);
+        match check_bare(bases, &reference, st) {
+            Ok(h) => {
+                outcomes.insert(h);
+            }
+            Err((clause, mut d)) => {
+                let text = render_step(bases, st).1;
+                d["bare"] = json!(true);
+                d["minimal"] = json!(text);
+                d["minimal_steps"] = json!([(st.base, format!("{:?}", st.inv), format!("{:?}", st.omit))]);
+                let kind = if matches!(bases[st.base], Base::Elem { .. }) { "elementary" } else { "macro" };
+                rep.violation(&format!("{clause} / single {kind} step without pipeline syntax"), d);
+            }
+        }
+    }
+    rep.nontrivial_bulk(&outcomes);
+    rep.outcomes_bulk(&outcomes);
+    rep.add_to("program_spaces", json!({"label": "bare single steps", "step_variants": n, "length": 1, "programs": n}));
+}
+
 const ALL_INV: [InvForm; 6] = [InvForm::None, InvForm::Suffix, InvForm::Prefix, InvForm::Infix, InvForm::EqTrue, InvForm::PrefixEqTrue];
 const ALL_OMIT: [OmitForm; 6] = [OmitForm::None, OmitForm::OmitFwd, OmitForm::OmitInv, OmitForm::OmitFwdTrue, OmitForm::Lt, OmitForm::Gt];
 
@@ -454,11 +513,12 @@ pub fn run(tier: Tier) -> Report {
     let all: Vec<usize> = (0..bases.len()).collect();
     let full = step_space(&all, &ALL_INV, &ALL_OMIT);
     let reduced = step_space(
-        &[0, 1, 2, 5, 6, 7, 8, 9, 11, 13],
+        &[0, 1, 5, 6, 7, 8, 9, 11, 15, 20],
         &[InvForm::None, InvForm::Suffix, InvForm::Prefix],
         &[OmitForm::None, OmitForm::OmitFwd, OmitForm::Gt],
     );
     let tiny = step_space(&[0, 1, 7, 8, 9], &[InvForm::None, InvForm::Suffix], &[OmitForm::None, OmitForm::Lt, OmitForm::OmitInv]);
+    enumerate_bare(&rep, &bases, &full);
     enumerate(&rep, &bases, &full, 1, "full^1");
     enumerate(&rep, &bases, &full, 2, "full^2");
     match tier {
@@ -489,7 +549,8 @@ pub fn replay(case: &Value) -> Result<String, String> {
         prog.push(Step { base, inv, omit });
     }
     let _ = base_name;
-    match check_program(&bases, &reference, &prog) {
+    let r = if case["bare"].as_bool() == Some(true) && prog.len() == 1 { check_bare(&bases, &reference, &prog[0]) } else { check_program(&bases, &reference, &prog) };
+    match r {
         Ok(_) => Ok(render(&bases, &prog)),
         Err((c, d)) => Err(format!("{c}: {d}")),
     }
